@@ -197,10 +197,12 @@ class SmtLibSolver(Solver): # TODO this class is defined twice in pysmt. Here an
 
     @clear_pending_pop
     def pop(self, levels=1):
+        # The solver refuses to pop more levels than there are: the
+        # book-keeping follows only what it accepted
+        self._send_silent_command(SmtLibCommand(smtcmd.POP, [levels]))
         for _ in range(levels):
             self.declared_vars.pop()
             self.declared_sorts.pop()
-        self._send_silent_command(SmtLibCommand(smtcmd.POP, [levels]))
 
     def get_value(self, item):
         # A symbol that no assertion mentions is not declared in the
